@@ -40,6 +40,21 @@ def in_profile(case):
     return True
 
 
+def bi_cases():
+    """big-integer literals at every magnitude boundary of the emitter's constant forms (30, 31, 32, 63, 64 bits), both signs,
+    alone and as operands of a folded sum; Integer is a BigInteger in Java, so these are inside the profile"""
+    vals = sorted(set(s * ((1 << k) + d) for k in (7, 15, 28, 29, 30, 31, 32, 33, 62, 63, 64, 65) for d in (-1, 0, 1) for s in (1, -1)))
+    out = []
+    for i in range(0, len(vals), 12):
+        chunk = vals[i:i + 12]
+        body = ''.join('\tpIBI("K@K@:", %s);\n\tpIBI("K@K@:", %s + 1);\n' % (('(%d)' % v), ('(%d)' % v)) for v in chunk)
+        lines = []
+        for v in chunk:
+            lines += [str(v), str(v + 1)]
+        out.append(('JB', families.raw('c@K@(): () == {\n\timport from Integer;\n%s}\n' % body, lines)))
+    return out
+
+
 def main(tier):
     ck = Check(PID, 'exploration', tier, deadline_s=900 if tier == 'quick' else 3000)
     b = ck.build('aldor', 'foam', 'libaldor', 'jars')
@@ -56,11 +71,20 @@ def main(tier):
                 cases.append((f, c))
     else:
         cases = allc
-    levels = (1,) if tier == 'quick' else (1, 3, 9)
-    cfgs = []
+    levels = (1, 3) if tier == 'quick' else (1, 3, 9)
+    jb = bi_cases()
+    njb0 = len(cases)
+    cases = cases + jb
+    res = {}
     for q in levels:
-        cfgs += [('interp', ('-Q%d' % q,)), ('java', ('-Q%d' % q,))]
-    res = diffeng.run_configs(ck, tc, cases, cfgs, pack=24, timeout=300)
+        cfgs = [('interp', ('-Q%d' % q,)), ('java', ('-Q%d' % q,))]
+        if tier == 'quick' and q == 3:
+            # quick: the folding level only for the constant family (folded literals take other paths through the emitter)
+            sub = diffeng.run_configs(ck, tc, jb, cfgs, pack=24, timeout=300)
+            for lab, by in sub.items():
+                res[lab] = {njb0 + i: o for i, o in by.items()}
+        else:
+            res.update(diffeng.run_configs(ck, tc, cases, cfgs, pack=24, timeout=300))
     for q in levels:
         ii = res.get('interp:-Q%d' % q, {})
         jj = res.get('java:-Q%d' % q, {})
